@@ -231,6 +231,18 @@ impl RustDocument {
             return Some(rust_node.clone());
         }
 
+        // a reference without any namespace is answered by the search through the XML tree whatever
+        // the namespace of what it finds; what that search found before is found again here
+        if namespace.is_none() {
+            let read_ahead = self.resolved_ahead.iter().find(|node| {
+                node.rust_type.xml_name().is_some_and(|n| n == xml_name)
+                    && kind.is_none_or(|k| k.matches_rust_type(&node.rust_type))
+            });
+            if let Some(rust_node) = read_ahead {
+                return Some(rust_node.clone());
+            }
+        }
+
         // a definition that (directly or indirectly) refers to itself would be looked up forever
         if self.resolving.iter().any(|n| n == xml_name) {
             return None;
